@@ -1263,3 +1263,114 @@ func isMetaOf(v ssa.Value) bool {
 	_, ok := isMetaType(v.Type())
 	return ok
 }
+
+func init() {
+	register("SER-12", "only the cataloguing and reading routines write a catalogue; nothing removes from it", 10, ruleSER12)
+}
+
+// SER-12 (who-may-write): the catalogue is filled by WorkingMemory.MakeCatalog, Catalog.AddMeta (node records),
+// KnowledgeBase.MakeCatalog (name/version) and ReadCatalogFromReader; no other function stores to its fields or maps,
+// and no function at all deletes from its maps — a catalogue that is pruned after being filled loses part of the
+// knowledge base (e.g. invalidation index entries) across store/load.
+func ruleSER12(c *Ctx) {
+	p := c.P
+	catT := p.Named("ast", "Catalog")
+	if catT == nil {
+		c.AnchorLost("ast.Catalog")
+		return
+	}
+	st, _ := catT.Underlying().(*types.Struct)
+	isCatField := func(f *types.Var) bool {
+		if f == nil || st == nil {
+			return false
+		}
+		for i := 0; i < st.NumFields(); i++ {
+			if st.Field(i) == f {
+				return true
+			}
+		}
+		return false
+	}
+	allowed := map[*ssa.Function]string{}
+	for _, a := range [][3]string{{"ast", "WorkingMemory", "MakeCatalog"}, {"ast", "Catalog", "AddMeta"}, {"ast", "Catalog", "ReadCatalogFromReader"}, {"ast", "KnowledgeBase", "MakeCatalog"}} {
+		if fn := p.Method(a[0], a[1], a[2]); fn != nil {
+			allowed[fn] = a[1] + "." + a[2]
+		} else {
+			c.AnchorLost(a[1] + "." + a[2])
+		}
+	}
+	// derivesFromCatalogue: the value is (selected out of) a catalogue field
+	fromCat := func(v ssa.Value) *types.Var {
+		var hit *types.Var
+		backSlice(v, func(w ssa.Value) bool {
+			if f, _ := fieldLoad(w); isCatField(f) {
+				hit = f
+				return false
+			}
+			if fa, ok := w.(*ssa.FieldAddr); ok && isCatField(fieldOfAddr(fa)) {
+				hit = fieldOfAddr(fa)
+				return false
+			}
+			return hit == nil
+		})
+		return hit
+	}
+	writes := 0
+	for _, fn := range p.ModuleFuncs() {
+		if strings.HasSuffix(p.Pos(fn.Pos()), "_test.go") {
+			continue
+		}
+		root := fn
+		for root.Parent() != nil {
+			root = root.Parent()
+		}
+		for _, b := range fn.Blocks {
+			for _, in := range b.Instrs {
+				var f *types.Var
+				kind := ""
+				switch in := in.(type) {
+				case *ssa.Store:
+					if ff, _, _ := fieldStore(in); isCatField(ff) {
+						f, kind = ff, "field store"
+					} else if ia, ok := in.Addr.(*ssa.IndexAddr); ok {
+						if ff := fromCat(ia.X); ff != nil {
+							f, kind = ff, "element store"
+						}
+					}
+				case *ssa.MapUpdate:
+					if ff := fromCat(in.Map); ff != nil {
+						f, kind = ff, "map update"
+					}
+				case ssa.CallInstruction:
+					if bi, ok := in.Common().Value.(*ssa.Builtin); ok && (bi.Name() == "delete" || bi.Name() == "clear") && len(in.Common().Args) >= 1 {
+						if ff := fromCat(in.Common().Args[0]); ff != nil {
+							c.Fail(fmt.Sprintf("%s / removes from Catalog.%s", fnName(fn), ff.Name()), p.InstrPos(in.(ssa.Instruction)), fmt.Sprintf("%s(…) on Catalog.%s: entries recorded for the knowledge base are dropped from the catalogue and are missing after store/load", bi.Name(), ff.Name()))
+						}
+					}
+				}
+				if f == nil {
+					continue
+				}
+				writes++
+				who, ok := allowed[root]
+				key := fmt.Sprintf("%s / %s of Catalog.%s", fnName(fn), kind, f.Name())
+				if !ok {
+					c.Fail(key, p.InstrPos(in), fmt.Sprintf("Catalog.%s is written outside the cataloguing/reading routines (WorkingMemory.MakeCatalog, Catalog.AddMeta, KnowledgeBase.MakeCatalog, ReadCatalogFromReader)", f.Name()))
+					continue
+				}
+				// KnowledgeBase.MakeCatalog only initialises: receiver fields, nil or ""
+				if who == "KnowledgeBase.MakeCatalog" {
+					stv := in.(*ssa.Store).Val
+					_, isC := stv.(*ssa.Const)
+					lf, base := fieldLoad(stv)
+					if !(isC || (lf != nil && base == ssa.Value(receiver(fn)))) || kind != "field store" {
+						c.Fail(key, p.InstrPos(in), "KnowledgeBase.MakeCatalog writes more into the catalogue than its own name/version and empty initial values")
+						continue
+					}
+				}
+				c.OK(key, p.InstrPos(in), "writer is "+who)
+			}
+		}
+	}
+	c.Notes = append(c.Notes, fmt.Sprintf("catalogue writes found: %d", writes))
+}
